@@ -1077,6 +1077,13 @@ class C06Var(Prop):
                                             "responses-order", "responses-msg", "responses-msg-same-len",
                                             "responses-name-same-len", "crc", "large", "src_v", "dst_v", "seq_v",
                                             "dir"], mut, "fin_eq")
+        # == with a fault location whose entity ID has a width outside {1,2,4,8} raises ValueError
+        # (C06_finished_eq_other_width); model and implementation must agree on that
+        for w in (0, 3, 5, 9):
+            a = rand_conf(rng)
+            x = {**a, "cond": 4, "delivery": 1, "status": 2, "responses": [rand_resp(rng) for _ in range(rng.choice([0, 1]))],
+                 "fault": hx(rand_fault(rng, w))}
+            yield Case({"op": "fin_eq", "a": x, "b": dict(x)}, "any", tag="eq-fault-width-other")
 
     # ---- Metadata ----
     def md_cases(self, rng, thorough):
